@@ -60,7 +60,7 @@ def run(c):
     c.assumptions = ["integer-valued matrices / vectors and dyadic damping: IEEE doubles hold the inputs exactly; TLC recomputes every definition in exact rationals",
                      "recorded doubles are compared with the rational value at 2^-20 absolute (+-2 units); rounding-level accuracy is judged on errors against dense long-double definitions computed by the recorder (1e-12; Chebyshev 3e-11)",
                      "rows are sorted by column (the ILU classes require it; amg / make_solver sort their copy)",
-                     "the level-scheduled *Gauss-Seidel* sweep is exercised on structurally symmetric patterns only (its defect on non-symmetric patterns is DESIGN 6.1 / C09); the serial sweep on everything",
+                     "the level-scheduled Gauss-Seidel sweep is compared with the serial definition on every pattern (its anti-dependence defect on non-symmetric patterns, DESIGN 6.1 / C09, is repaired in /repo by 2e16781)",
                      "level of fill follows the rule of iluk.hpp (max of the two levels + 1), a superset of the textbook sum rule (model invariant)",
                      "block-valued SPAI-0 is judged as x + M r with the class's own M (its block formula is a norm-weighted heuristic, not a Frobenius minimiser under any reading)",
                      "the recorder reads the ILU factors / Chebyshev bounds with -fno-access-control (no /repo edit)",
@@ -68,19 +68,24 @@ def run(c):
     notes = {}
 
     def models():
+        # coverage=False: TLC's coverage bookkeeping slows the deeply recursive rational evaluation 20x
         ms = [c.tlc_model("RelaxModel", constants={"N": 3}, workers=8, coverage=False, timeout=1500),
               c.tlc_model("IlukModel", constants={"NOff": 5}, workers=8, coverage=False, timeout=1500)]
         if th:
             ms.append(c.tlc_model("RelaxModel", constants={"N": 4}, workers=12, coverage=False, timeout=3000))
             ms.append(c.tlc_model("IlukModel", constants={"NOff": 6, "K": 1}, workers=12, coverage=False, timeout=3000))
             ms.append(c.tlc_model("IlukModel", constants={"NOff": 5, "K": 2}, workers=12, coverage=False, timeout=3000))
-            # iluk.hpp as it was found (entries created lazily): the model shows (L U)_ij # a_ij; informational
-            m = c.tlc_model("IlukModel", constants={"Lazy": "TRUE"}, workers=8, coverage=False, timeout=1500)
-            c.note("IlukModel with Lazy = TRUE (iluk.hpp as found): %s" % ("violates " + str(m["violated"]) if m["violated"] else "no violation"))
         for m in ms:
             if m["violated"]:
                 notes[m["module"] + str(m.get("constants", ""))] = m["violated"]
                 c.note("model %s %s violated %s" % (m["module"], m.get("constants", ""), m["violated"]))
+        # iluk.hpp as it was in the snapshot (fill entries created lazily, Lazy = TRUE): the model must keep
+        # showing (L U)_ij # a_ij (fixed in /repo by 0898843); if it stops, the model lost its teeth
+        m = c.tlc_model("IlukModel", constants={"Lazy": "TRUE"}, workers=6, coverage=False, timeout=1500)
+        if m["violated"]:
+            c.note("IlukModel with Lazy = TRUE (iluk.hpp of the snapshot) violates %s as expected (witness found after %d states)" % (m["violated"], m["states"]))
+        else:
+            c.vacuous.append("IlukModel with Lazy = TRUE (the snapshot's lazy fill) no longer violates IluOK")
 
     def code():
         rr = c.build("record_relaxation", ["record_relaxation.cpp"], flags=["-fno-access-control"])
